@@ -9,6 +9,7 @@ import (
 	"bufio"
 	"encoding/json"
 	"fmt"
+	"github.com/skycoin/skycoin/src/util/useragent"
 	"io/ioutil"
 	"math/rand"
 	"os"
@@ -146,7 +147,7 @@ func TestVerifPex(t *testing.T) {
 				}
 				return r.Pre[rng.Intn(len(r.Pre))].Addr
 			}
-			k := rng.Intn(20)
+			k := rng.Intn(24)
 			if burst && step == 12 && len(r.Pre) > 0 {
 				burstLeft, burstAddr = 12, r.Pre[rng.Intn(len(r.Pre))].Addr
 				for _, p := range r.Pre {
@@ -254,6 +255,38 @@ func TestVerifPex(t *testing.T) {
 				px.peerlist.clearOld(px.Config.Expiration)
 				px.Unlock()
 				r.Res = "ok"
+			case k == 20 || k == 21:
+				// what the daemon records about a peer after its introduction: only a listed peer, only that peer, is touched
+				a := known()
+				if rng.Intn(4) == 0 {
+					a = " " + a + " "
+				}
+				r.Args = []vxArg{{Raw: a, Clean: vxWS.ReplaceAllString(a, "")}}
+				var err error
+				if k == 20 {
+					r.Op = "hasport"
+					err = px.SetHasIncomingPort(a, rng.Intn(2) == 0)
+				} else {
+					r.Op = "useragent"
+					ua := useragent.Data{Coin: "skycoin", Version: "0.27.0"}
+					if rng.Intn(3) == 0 {
+						ua = useragent.Data{Coin: "sky coin\n", Version: "x"} // cannot be built into a user agent string
+						r.N = 1
+					}
+					err = px.SetUserAgent(a, ua)
+				}
+				r.Res = "ok"
+				if err != nil {
+					r.Res = "err"
+				}
+			case k == 22:
+				r.Op = "resetall"
+				px.ResetAllRetryTimes()
+				r.Res = "ok"
+			case k == 23:
+				r.Op = "isfull"
+				r.Res = fmt.Sprint(px.IsFull())
+				r.N = len(px.AllTrusted())
 			default:
 				// restart: the list is saved and a new Pex loads it
 				r.Op = "reload"
